@@ -1,6 +1,8 @@
 package main
 
 import (
+	"runtime"
+	"strings"
 	"encoding/json"
 	"fmt"
 	"hash/fnv"
@@ -260,4 +262,28 @@ func setupDesktop(ctx *Ctx) string {
 	_ = os.Setenv("DISPLAY", ":0")
 	_ = os.Setenv("PATH", bin+":"+os.Getenv("PATH"))
 	return variant
+}
+
+// lockedForMinutes returns the stack of a goroutine that the Go runtime reports as waiting for a mutex for at least a
+// minute inside fan2go's own code (not the harness), or "".
+func lockedForMinutes() string {
+	buf := make([]byte, 4<<20)
+	n := runtime.Stack(buf, true)
+	for _, blk := range strings.Split(string(buf[:n]), "\n\n") {
+		head := strings.SplitN(blk, "\n", 2)[0]
+		if !strings.Contains(head, " minutes]") {
+			continue
+		}
+		if !(strings.Contains(head, "sync.Mutex.Lock") || strings.Contains(head, "sync.RWMutex") || strings.Contains(head, "semacquire")) {
+			continue
+		}
+		body := strings.ReplaceAll(blk, "/internal/verif/", "/VERIF/")
+		if strings.Contains(body, "markusressel/fan2go/internal/") {
+			if len(blk) > 1500 {
+				blk = blk[:1500]
+			}
+			return blk
+		}
+	}
+	return ""
 }
